@@ -44,6 +44,7 @@ SUBJECTS = {
     "F06e": "the disconnect message never waits for room",
     "F07": "the disconnect message never waits for room",
     "F46": "end the connection on a malformed HTTP2-Settings header",
+    "F10": "close a stream that answered by itself",
     "F34": "a failed lifespan startup is only reported once",
     "F35": "a lifespan failure the application swallowed",
     "F36": "worker_serve returns when the lifespan app is still waiting",
